@@ -6,9 +6,11 @@ package main
 // classifyAtom), so renaming variables or reordering statements does not detach an entry.
 
 var commonSkips = map[string]string{
-	"nil-element":         "a nil entry of a list carries no data",
-	"inexpressible":       "a converter of the target format has no image for the value (format cannot express it / invalid value in the input)",
-	"unknown-enum-number": "an enum number the schema does not define has no label in any format",
+	"nil-element":          "a nil entry of a list carries no data",
+	"inexpressible":        "a converter of the target format has no image for the value (format cannot express it / invalid value in the input)",
+	"unknown-enum-number":  "an enum number the schema does not define has no label in any format",
+	"caller-predicate":     "a generic filter helper keeps what the predicate it is handed accepts; the predicate is the call site's and is not judged inside the helper",
+	"not:caller-predicate": "a generic filter helper keeps what the predicate it is handed accepts; the predicate is the call site's and is not judged inside the helper",
 }
 
 var firstActorExits = map[string]string{
